@@ -11,16 +11,16 @@ import (
 
 func init() {
 	register(&Property{
-		ID:  "C12",
-		Run: runC12,
+		ID:          "C12",
+		Run:         runC12,
 		Explanation: "Limit pass-through: Q1 a typestate dataflow shows every element received with ok=true from the input is written to the output exactly once, unchanged, before the next receive, by the single goroutine, and flows nowhere else; Q2 from the closed-input observation every path (boolean results of the inlined calls decide the branches that test them) reaches the return of the goroutine entry, whose unconditional defer closes the output, without another receive, output write or Sleep (Q3); no Sleep is reachable from the batch function (no pause inside a batch, so fewer than Quantity elements pass with no pause); Q4 the sleep amount is Interval minus the time measured from a clock reading taken before the batch.",
-		NotDecided: []string{"'within about ceil(N/Quantity) intervals' as a real-time statement"},
+		NotDecided:  []string{"'within about ceil(N/Quantity) intervals' as a real-time statement"},
 	})
 	register(&Property{
-		ID:  "C04",
-		Run: runC04,
+		ID:          "C04",
+		Run:         runC04,
 		Explanation: "Limit rate (necessary structure only): L1 the output is written only from the batch loop, a counted loop from 0 to Limit.Quantity with step 1 that receives at most once and writes exactly once per received element per iteration; L2 in the goroutine's outer loop two batches are always separated by the delay call (typestate dataflow with boolean-result pruning); L3 the delay sleeps Interval - d, d = time.Since(t0) (or Now().Sub(t0)), where t0 = time.Now() is read before the batch starts and d after it ends. With Sleep(x) sleeping at least x, consecutive batch starts are at least Interval apart, which gives both counting bounds for writes into the output channel.",
-		NotDecided: []string{"the numeric bounds themselves (real time)", "bursts seen by a consumer that stalls: the output channel has capacity 1+cap(Input), the statement is read as 'written to the output channel'"},
+		NotDecided:  []string{"the numeric bounds themselves (real time)", "bursts seen by a consumer that stalls: the output channel has capacity 1+cap(Input), the statement is read as 'written to the output channel'"},
 	})
 }
 
